@@ -1,9 +1,10 @@
-(* C09: progress for Content-Length and until-EOF bodies (chunked bodies: refuted, see Props/C09.v).
+(* C09: progress and end-of-body for every framing (repaired code: dc85988, 497a2a6, 72e5a25).
 
-   No reachable state has the consumer's buffer empty while the connection is open and either the
-   parser holds unprocessed input (has_more) or reading is paused: whenever the buffer runs empty the
-   last _read_nowait_chunk resumed the parser, and the parser only stops early (PENDING / paused) right
-   after it put bytes into the buffer.
+   progress      while the connection is open and no payload error is set: an empty buffer implies that the
+                 parser holds no unprocessed input and reading is not paused (the consumer waits for the
+                 network, never for a resume nobody will issue);
+   reaches_eof   once the connection is lost: an empty buffer implies EOF was fed or a payload error is set
+                 (the consumer never ends in RuntimeError("Connection closed.") or in a wait).
 
    Codec law used:  an output-less decompress_sync call leaves data_available false
        hstep h x m = Some (Some (h', [])) -> havail h' = false
@@ -15,6 +16,42 @@ Open Scope N_scope.
 
 Lemma snoc_not_nil {A} (l : list A) (x : A) : l ++ [x] <> [].
 Proof. destruct l; discriminate. Qed.
+
+(* chunk-end offsets: strictly increasing, between the cursor and the total *)
+Fixpoint incr (l : list N) (lo hi : N) : Prop :=
+  match l with [] => True | x :: l' => lo <= x /\ x <= hi /\ incr l' (x + 1) hi end.
+
+Lemma incr_hi l : forall lo hi hi', incr l lo hi -> hi <= hi' -> incr l lo hi'.
+Proof. induction l as [|x l IH]; cbn; intros lo hi hi' Hi Hh; [exact I|]. destruct Hi as (A & B & C). repeat split; try lia. eapply IH; eauto. Qed.
+
+Lemma incr_lo l : forall lo lo' hi, incr l lo hi -> lo' <= lo -> incr l lo' hi.
+Proof. destruct l as [|x l]; cbn; intros lo lo' hi Hi Hl; [exact I|]. destruct Hi as (A & B & C). repeat split; auto; lia. Qed.
+
+Lemma incr_len l : forall lo hi, incr l lo hi -> l = [] \/ lenN l + lo <= hi + 1.
+Proof.
+  induction l as [|x l IH]; cbn [incr]; intros lo hi Hi; [left; reflexivity|right].
+  destruct Hi as (A & B & C). rewrite lenN_cons. destruct (IH _ _ C) as [->|Hl]; [change (lenN (@nil N)) with 0; lia|lia].
+Qed.
+
+Lemma incr_snoc l : forall lo t, incr l lo t -> lo <= t -> last_or l 0 <> t -> incr (l ++ [t]) lo t.
+Proof.
+  induction l as [|x l IH]; intros lo t Hi Hl Hn.
+  - cbn. repeat split; lia.
+  - cbn [incr app] in *. destruct Hi as (A & B & C). repeat split; auto.
+    destruct l as [|y l'].
+    + cbn in *. repeat split; lia.
+    + apply IH; auto.
+      * cbn [incr] in C. destruct C as (C1 & C2 & _). lia.
+Qed.
+
+Lemma drop_stale_incr l : forall lo hi c, incr l lo hi -> incr (drop_stale l c) c hi.
+Proof.
+  induction l as [|x l IH]; intros lo hi c Hi; cbn [drop_stale]; [exact I|].
+  cbn [incr] in Hi. destruct Hi as (A & B & C). unfold dg_split_stale.
+  destruct (x <? c) eqn:E.
+  - eapply IH; eauto.
+  - cbn [incr]. repeat split; auto. lia.
+Qed.
 
 Section Progress.
   Variable H : Type.
@@ -28,22 +65,60 @@ Section Progress.
   Notation st := (st H).
   Notation sys := (sys H).
 
+  (* ---- reader well-formedness -------------------------------------------------------------------- *)
+  Definition Wr (r : rd) : Prop :=
+    rsize r = lenN (concat (buf r)) /\ total r = cursor r + rsize r /\
+    match splits r with None => True | Some l => incr l (cursor r) (total r) end /\
+    1 <= low r /\ 2 <= lowc r /\ 4 <= highc r.
+  Definition W (s : st) : Prop := Wr (re s).
   Definition nonempty (s : st) : Prop := buf (re s) <> [].
+
+  Lemma Wr_nonempty r : Wr r -> 0 < rsize r -> buf r <> [].
+  Proof. intros (A & _) Hp Hb. rewrite Hb in A. cbn in A. lia. Qed.
+
+  (* more chunk ends than the high-water count => there are bytes in the buffer *)
+  Lemma Wr_many_splits r l : Wr r -> splits r = Some l -> 4 < lenN l -> buf r <> [].
+  Proof.
+    intros Hw Hs Hl. apply (Wr_nonempty r Hw). destruct Hw as (A & B & C & _). rewrite Hs in C.
+    destruct (incr_len _ _ _ C) as [->|Hx]; [change (lenN (@nil N)) with 0 in Hl; lia|lia].
+  Qed.
+
+  (* an empty buffer leaves at most one chunk end *)
+  Lemma Wr_empty_splits r l : Wr r -> buf r = [] -> splits r = Some l -> lenN l <= 1.
+  Proof.
+    intros (A & B & C & _) Hb Hs. rewrite Hs in C. rewrite Hb in A. cbn in A.
+    destruct (incr_len _ _ _ C) as [->|Hx]; [change (lenN (@nil N)) with 0; lia|lia].
+  Qed.
+
+  (* ---- flow predicates ---------------------------------------------------------------------------------- *)
   Definition Pg (s : st) : Prop := rpaused (pr s) = true -> nonempty s.
   Definition Pt (s : st) : Prop := connected (pr s) = true -> tpaused (pr s) = true -> rpaused (pr s) = true.
-  Definition Ps (s : st) : Prop := splits (re s) = None.
-  Definition SzP (s : st) : Prop := rsize (re s) = lenN (concat (buf (re s))).
-  (* what a payload-parser function may change *)
-  Definition Q (s s' : st) : Prop :=
-    (Pg s -> Pg s') /\ (Pt s -> Pt s') /\ (Ps s -> Ps s') /\ (SzP s -> SzP s') /\ (nonempty s -> nonempty s') /\
-    cf s' = cf s /\ low (re s') = low (re s) /\ ptyp (pa s') = ptyp (pa s) /\
-    connected (pr s') = connected (pr s) /\ parser_alive (pr s') = parser_alive (pr s) /\
-    pp_present (pr s') = pp_present (pr s) /\ has_more (pr s') = has_more (pr s) /\ closing (pr s') = closing (pr s).
+  Definition Pq (s : st) : Prop := ppaused (pa s) = true -> nonempty s.
 
+  (* what a payload-parser step may change *)
+  Definition Qw (s s' : st) : Prop :=
+    (W s -> W s') /\ (W s -> Pg s -> Pg s') /\ (Pt s -> Pt s') /\ (W s -> Pq s -> Pq s') /\ (nonempty s -> nonempty s') /\
+    cf s' = cf s /\ ptyp (pa s') = ptyp (pa s) /\
+    connected (pr s') = connected (pr s) /\ parser_alive (pr s') = parser_alive (pr s) /\
+    pp_present (pr s') = pp_present (pr s) /\ has_more (pr s') = has_more (pr s) /\ closing (pr s') = closing (pr s) /\
+    rexn (re s') = rexn (re s) /\ (reof (re s) = true -> reof (re s') = true).
+  Definition Q (s s' : st) : Prop :=
+    Qw s s' /\ plength (pa s') = plength (pa s) /\ eof_pending (pa s') = eof_pending (pa s).
+
+  Lemma Qw_refl s : Qw s s.
+  Proof. unfold Qw. intuition. Qed.
+  Lemma Qw_trans a b c : Qw a b -> Qw b c -> Qw a c.
+  Proof.
+    unfold Qw. intros (A1&A2&A3&A4&A5&A6&A7&A8&A9&A10&A11&A12&A13&A14) (B1&B2&B3&B4&B5&B6&B7&B8&B9&B10&B11&B12&B13&B14).
+    split; [auto|]. split; [intros Hw Hp; apply B2; auto|]. split; [auto|]. split; [intros Hw Hp; apply B4; auto|]. split; [auto|].
+    repeat split; try congruence; auto.
+  Qed.
   Lemma Q_refl s : Q s s.
-  Proof. unfold Q. intuition. Qed.
+  Proof. unfold Q. split; [apply Qw_refl|auto]. Qed.
   Lemma Q_trans a b c : Q a b -> Q b c -> Q a c.
-  Proof. unfold Q. intros (A1&A2&A3&A4&A5&A6&A7&A8&A9&A10&A11&A12&A13) (B1&B2&B3&B4&B5&B6&B7&B8&B9&B10&B11&B12&B13). repeat split; try congruence; auto. Qed.
+  Proof. unfold Q. intros (A & A1 & A2) (B & B1 & B2). split; [eapply Qw_trans; eauto|]. split; congruence. Qed.
+  Lemma Q_Qw a b : Q a b -> Qw a b.
+  Proof. intros (A & _); exact A. Qed.
 
   Ltac inv_some := repeat match goal with Hs : Some _ = Some _ |- _ => inversion Hs; clear Hs; subst end.
   Ltac crush := repeat split; intros; subst; inv_some; try reflexivity; try discriminate; try tauto; try congruence; try lia;
@@ -51,379 +126,332 @@ Section Progress.
   Ltac bust s :=
     destruct s as [cg p q d rr fd]; destruct p as [co tp rp al ppr hm cl]; destruct q as [pt pl ppz cs csz ctl mo ep pd ntr btr];
     destruct d as [cm en dh dsz dst]; destruct rr as [bf rs lo hi lc hc eo ex tt cu sp w dl].
-  Ltac unq := unfold Q in *; unfold Pg, Pt, Ps, SzP, nonempty in *.
+  Ltac unq := unfold Q, Qw in *; unfold W, Wr, Pg, Pt, Pq, nonempty in *.
+
+  (* StreamReader.feed_data keeps the reader well formed *)
+  Lemma Wr_feed bf rs lo hi lc hc eo ex tt cu sp w dl w' (data : bytes) :
+    Wr (mkRd bf rs lo hi lc hc eo ex tt cu sp w dl) ->
+    Wr (mkRd (bf ++ [data]) (rs + lenN data) lo hi lc hc eo ex (tt + lenN data) cu sp w' dl).
+  Proof.
+    unfold Wr; cbn. intros (A & B & C & D). rewrite lenN_concat_snoc. repeat split; try lia; try tauto.
+    destruct sp as [l|]; [|exact I]. eapply incr_hi; [exact C|lia].
+  Qed.
 
   Lemma db_feed_Q s chunk s' r :
     db_feed H hnew hstep havail s chunk = (s', r) -> Q s s' /\ (r = FMore true -> nonempty s').
   Proof.
-    bust s. unq. unfold db_feed. cbn. destruct cm; cbn.
+    bust s. unfold db_feed. cbn. destruct cm; cbn.
     - match goal with |- context [hstep ?a ?b ?m] => destruct (hstep a b m) as [[[h2 out]|]|] eqn:Eh end.
       + destruct out as [|o0 out]; cbn.
-        * pose proof (avail_law _ _ _ _ Eh) as Ha. rewrite Ha. intros [= <- <-]; cbn. crush.
-        * unfold rd_feed; cbn. destruct eo; cbn; [intros [= <- <-]; cbn; crush|].
+        * pose proof (avail_law _ _ _ _ Eh) as Ha. rewrite Ha. intros [= <- <-]. unq. cbn. crush.
+        * unfold rd_feed; cbn. destruct eo; cbn; [intros [= <- <-]; unq; cbn; crush|].
           unfold wake_ok, dg_feed_pause; cbn.
-          destruct w; cbn; match goal with |- context [if ?x then _ else _] => destruct x end; cbn; intros [= <- <-]; cbn;
-            rewrite ?lenN_concat_snoc; destruct co; cbn; crush.
-      + intros [= <- <-]; cbn. crush.
-      + intros [= <- <-]; cbn. crush.
-    - unfold rd_feed; cbn. destruct eo; cbn; [intros [= <- <-]; cbn; crush|].
-      destruct chunk as [|c0 chunk]; cbn; [intros [= <- <-]; cbn; crush|].
+          destruct w; cbn; match goal with |- context [if ?x then _ else _] => destruct x end; cbn; intros [= <- <-];
+            (split; [|intros _; cbn; apply snoc_not_nil]); unfold Q, Qw; cbn;
+            (split; [|split; reflexivity]);
+            (split; [unfold W; cbn; apply Wr_feed|]); unfold Pg, Pt, Pq, nonempty; cbn; destruct co; cbn; crush.
+      + intros [= <- <-]. unq. cbn. crush.
+      + intros [= <- <-]. unq. cbn. crush.
+    - unfold rd_feed; cbn. destruct eo; cbn; [intros [= <- <-]; unq; cbn; crush|].
+      destruct chunk as [|c0 chunk]; cbn; [intros [= <- <-]; unq; cbn; crush|].
       unfold wake_ok, dg_feed_pause; cbn.
-      destruct w; cbn; match goal with |- context [if ?x then _ else _] => destruct x end; cbn; intros [= <- <-]; cbn;
-        rewrite ?lenN_concat_snoc; destruct co; cbn; crush.
+      destruct w; cbn; match goal with |- context [if ?x then _ else _] => destruct x end; cbn; intros [= <- <-];
+        (split; [|intro Hx; discriminate Hx]); unfold Q, Qw; cbn;
+        (split; [|split; reflexivity]);
+        (split; [unfold W; cbn; apply Wr_feed|]); unfold Pg, Pt, Pq, nonempty; cbn; destruct co; cbn; crush.
   Qed.
 
   Lemma db_feed_eof_Q s s' r :
-    db_feed_eof H heof hflush s = (s', r) -> Q s s' /\ (forall e, r = Some e -> is_framing e = false).
+    db_feed_eof H heof hflush s = (s', r) ->
+    Q s s' /\ (r = None -> reof (re s') = true) /\ (forall e, r = Some e -> is_framing e = false).
   Proof.
     bust s. unq. unfold db_feed_eof, rd_feed_eof, wake_ok. cbn.
     destruct cm; cbn; [destruct (hflush dh) as [fl|]; [destruct (isnil fl); cbn; [destruct ((0 <? dsz) && (en =? 2) && negb (heof dh)); cbn|]|]|];
       destruct w; cbn; intros [= <- <-]; cbn; destruct co; cbn; crush.
   Qed.
 
-  Lemma upd_Q s f : (forall q, ptyp (f q) = ptyp q) -> Q s (upd_pa H s f) /\ re (upd_pa H s f) = re s /\ pa (upd_pa H s f) = f (pa s).
-  Proof. intros Hk. bust s. unq. unfold upd_pa. cbn. pose proof (Hk (mkPp pt pl ppz cs csz ctl mo ep pd ntr btr)) as K2. cbn in *. rewrite K2. crush. Qed.
-  Ltac kt := let q := fresh "q" in (intro q; destruct q; cbn; auto).
-
-  Lemma exn_Q s e : Q s (rd_set_exn H s e) /\ pr (rd_set_exn H s e) = pr s.
-  Proof. bust s. unq. unfold rd_set_exn. cbn. crush. Qed.
-
-  Lemma drain_Q f : forall s s' r,
-    drain H hnew hstep havail f s = (s', r) ->
-    Q s s' /\ ((more (pa s) = true -> nonempty s) -> r = DPaused -> nonempty s') /\ (forall e, r = DErr e -> is_framing e = false).
+  (* setters of the payload parser's own fields *)
+  Definition keepsQ (f : pp -> pp) : Prop :=
+    forall q, ptyp (f q) = ptyp q /\ plength (f q) = plength q /\ eof_pending (f q) = eof_pending q /\
+              (ppaused (f q) = true -> ppaused q = true).
+  Lemma upd_Q s f : keepsQ f -> Q s (upd_pa H s f) /\ re (upd_pa H s f) = re s /\ pa (upd_pa H s f) = f (pa s) /\ pr (upd_pa H s f) = pr s.
   Proof.
-    induction f as [|f IH]; intros s s' r; cbn [drain].
-    - intros [= <- <-]. split; [apply Q_refl|]. split; [intros _ Xd; discriminate Xd|]. intros e [= <-]; reflexivity.
-    - destruct (more (pa s)) eqn:Em.
-      + destruct (ppaused (pa s)) eqn:Ep.
-        * intros [= <- <-]. destruct (upd_Q s (fun q => pa_paused q false)) as (Q1 & R1 & _); [kt|].
-          split; [exact Q1|]. split; [|discriminate]. intros Hm _. unfold nonempty in *. rewrite R1. auto.
-        * destruct (db_feed H hnew hstep havail s []) as [s1 [e|m]] eqn:Ed; destruct (db_feed_Q _ _ _ _ Ed) as (Q1 & N1).
-          -- intros [= <- <-]. split; [exact Q1|]. split; [intros _ Xd; discriminate Xd|]. intros e' [= <-]. eapply db_feed_err; eauto.
-          -- destruct (upd_Q s1 (fun q => pa_more q m)) as (Q2 & R2 & P2); [kt|].
-             intros Hd. apply IH in Hd. destruct Hd as (Q3 & N3 & E3).
-             split; [eapply Q_trans; [exact Q1|eapply Q_trans; [exact Q2|exact Q3]]|]. split; [|exact E3].
-             intros _. apply N3. rewrite P2. destruct (pa s1); cbn. intros ->. unfold nonempty in *. rewrite R2. auto.
-      + intros [= <- <-]. split; [apply Q_refl|]. split; [intros _ Xd; discriminate Xd|]. intros e [=].
+    intros Hk. bust s. unq. unfold upd_pa. cbn.
+    destruct (Hk (mkPp pt pl ppz cs csz ctl mo ep pd ntr btr)) as (K1 & K2 & K3 & K4). cbn in *. rewrite K1, K2, K3. crush.
+  Qed.
+  Definition keepsW (f : pp -> pp) : Prop := forall q, ptyp (f q) = ptyp q /\ (ppaused (f q) = true -> ppaused q = true).
+  Lemma upd_Qw s f : keepsW f -> Qw s (upd_pa H s f) /\ re (upd_pa H s f) = re s /\ pa (upd_pa H s f) = f (pa s) /\ pr (upd_pa H s f) = pr s.
+  Proof.
+    intros Hk. bust s. unq. unfold upd_pa. cbn.
+    destruct (Hk (mkPp pt pl ppz cs csz ctl mo ep pd ntr btr)) as (K1 & K4). cbn in *. rewrite K1. crush.
+  Qed.
+  Ltac kt := unfold keepsQ, keepsW; let q := fresh "q" in (intro q; destruct q; cbn; repeat split; auto; discriminate).
+
+  Lemma begin_Q s : Q s (rd_begin_chunk H s) /\ pa (rd_begin_chunk H s) = pa s.
+  Proof. bust s. unq. unfold rd_begin_chunk. cbn. destruct sp; cbn; [crush|]. repeat split; auto; try tauto; try lia. Qed.
+
+  Lemma end_Q s : Q s (rd_end_chunk H s) /\ (ppaused (pa s) = false -> ppaused (pa (rd_end_chunk H s)) = true -> W s -> nonempty (rd_end_chunk H s)).
+  Proof.
+    bust s. unfold rd_end_chunk. cbn. destruct sp as [l|]; cbn; [|unq; cbn; crush].
+    destruct (tt =? last_or l 0) eqn:El; cbn; [unq; cbn; crush|].
+    assert (Hw : Wr (mkRd bf rs lo hi lc hc eo ex tt cu (Some l) w dl) -> forall w', Wr (mkRd bf rs lo hi lc hc eo ex tt cu (Some (l ++ [tt])) w' dl)).
+    { unfold Wr; cbn. intros (A & B & C & D) w'. repeat split; try tauto. apply incr_snoc; auto; lia. }
+    unfold dg_chunk_pause. destruct (hc <? lenN (l ++ [tt])) eqn:Ep; cbn; unfold wake_ok; cbn.
+    - assert (Hn : Wr (mkRd bf rs lo hi lc hc eo ex tt cu (Some l) w dl) -> bf <> []).
+      { intros Hwr. pose proof (Hw Hwr w) as Hw2. eapply (Wr_many_splits _ (l ++ [tt]) Hw2); [reflexivity|]. destruct Hwr as (_ & _ & _ & _ & _ & X). cbn in X. lia. }
+      destruct w; cbn; (split; [|intros _ _ Hwr; unfold nonempty; cbn; apply Hn; exact Hwr]); unfold Q, Qw; cbn;
+        (split; [|split; reflexivity]); (split; [unfold W; cbn; intro Hwr; apply Hw; exact Hwr|]);
+        unfold W, Pg, Pt, Pq, nonempty; cbn; destruct co; cbn; crush.
+    - destruct w; cbn; (split; [|intros A B; cbn in *; congruence]); unfold Q, Qw; cbn;
+        (split; [|split; reflexivity]); (split; [unfold W; cbn; intro Hwr; apply Hw; exact Hwr|]);
+        unfold W, Pg, Pt, Pq, nonempty; cbn; crush.
   Qed.
 
+  Definition nfd (r : dres) : Prop := forall e, r = DErr e -> is_framing e = false.
   Definition nf (r : pres) : Prop := forall e, r = PRaise e -> is_framing e = false.
 
-  Lemma finish_eof_Q s rest s' r : finish_eof H heof hflush s rest = (s', r) -> Q s s' /\ r <> PPending /\ nf r.
+  (* the data_available loop *)
+  Lemma drain_Q f : forall s s' r,
+    drain H hnew hstep havail f s = (s', r) ->
+    Q s s' /\ ((more (pa s) = true -> nonempty s) -> r = DPaused -> nonempty s') /\
+    (r = DPaused -> ppaused (pa s') = false /\ more (pa s') = true) /\ (r = DDone -> more (pa s') = false) /\ nfd r.
   Proof.
-    unfold finish_eof. destruct (db_feed_eof H heof hflush s) as [s1 [e|]] eqn:Ed; intros [= <- <-];
-      destruct (db_feed_eof_Q _ _ _ Ed) as (Q1 & E1); (split; [exact Q1|]); (split; [intro Xd; discriminate Xd|]); unfold nf; intros e' Hq; inversion Hq; subst; auto.
+    induction f as [|f IH]; intros s s' r; cbn [drain].
+    - intros [= <- <-]. split; [apply Q_refl|]. repeat split; try (intros; discriminate). intros e [= <-]; reflexivity.
+    - destruct (more (pa s)) eqn:Em.
+      + destruct (ppaused (pa s)) eqn:Ep.
+        * intros [= <- <-]. destruct (upd_Q s (fun q => pa_paused q false)) as (Q1 & R1 & P1 & _); [kt|].
+          split; [exact Q1|]. split; [intros Hm _; unfold nonempty in *; rewrite R1; auto|].
+          split; [intros _; rewrite P1; destruct (pa s); cbn in *; auto|]. split; [intro X; discriminate X|intros e X; discriminate X].
+        * destruct (db_feed H hnew hstep havail s []) as [s1 [e|m]] eqn:Ed; destruct (db_feed_Q _ _ _ _ Ed) as (Q1 & N1).
+          -- intros [= <- <-]. split; [exact Q1|]. split; [intros _ X; discriminate X|]. split; [intro X; discriminate X|].
+             split; [intro X; discriminate X|]. intros e' [= <-]. eapply db_feed_err; eauto.
+          -- destruct (upd_Q s1 (fun q => pa_more q m)) as (Q2 & R2 & P2 & _); [kt|].
+             intros Hd. apply IH in Hd. destruct Hd as (Q3 & N3 & D3 & O3 & E3).
+             split; [eapply Q_trans; [exact Q1|eapply Q_trans; [exact Q2|exact Q3]]|]. split; [|auto].
+             intros _. apply N3. rewrite P2. destruct (pa s1); cbn. intros ->. unfold nonempty in *. rewrite R2. auto.
+      + intros [= <- <-]. split; [apply Q_refl|]. split; [intros _ X; discriminate X|]. split; [intro X; discriminate X|].
+        split; [auto|intros e X; discriminate X].
   Qed.
 
+  Lemma finish_eof_Q s rest s' r :
+    finish_eof H heof hflush s rest = (s', r) -> Q s s' /\ r <> PPending /\ r <> PNeeds /\ (forall x, r = PComplete x -> reof (re s') = true) /\ nf r.
+  Proof.
+    unfold finish_eof. destruct (db_feed_eof H heof hflush s) as [s1 [e|]] eqn:Ed; intros [= <- <-];
+      destruct (db_feed_eof_Q _ _ _ Ed) as (Q1 & R1 & E1); (split; [exact Q1|]); (split; [discriminate|]); (split; [discriminate|]).
+    - split; [intros x X; discriminate X|]. intros e' X; inversion X; subst; auto.
+    - split; [auto|]. intros e' X; discriminate X.
+  Qed.
+
+  Ltac qt := repeat (first [eassumption | apply Qw_refl | apply Q_Qw; eassumption | (eapply Qw_trans; [first [eassumption | apply Q_Qw; eassumption]|])]).
+  Ltac pafield P x := rewrite P; destruct (pa x); cbn in *.
+
+  (* ---- PARSE_LENGTH ----------------------------------------------------------------------------------- *)
   Lemma len_feed_Q f s c s' r :
-    len_feed H hnew hstep havail heof hflush f s c = (s', r) -> Q s s' /\ (r = PPending -> nonempty s') /\ nf r.
+    len_feed H hnew hstep havail heof hflush f s c = (s', r) ->
+    Qw s s' /\ eof_pending (pa s') = eof_pending (pa s) /\
+    (r = PPending -> nonempty s' /\ ppaused (pa s') = false /\ more (pa s') = true) /\
+    (r = PNeeds -> ppaused (pa s') = false /\ more (pa s') = false) /\
+    (forall x, r = PComplete x -> reof (re s') = true) /\ nf r /\
+    (plength (pa s) = 0 -> r <> PNeeds /\ plength (pa s') = 0).
   Proof.
     unfold len_feed.
     set (chunk := ctail (pa s) ++ c). set (req := plength (pa s)).
-    destruct (upd_Q s (fun q => pa_length (pa_tail q []) (dg_remaining req (lenN chunk)))) as (Q0 & _ & _); [kt|].
-    set (s0 := upd_pa H s _) in *.
-    destruct (db_feed H hnew hstep havail s0 (take req chunk)) as [s1 [e|m]] eqn:Ed; destruct (db_feed_Q _ _ _ _ Ed) as (Q1 & N1).
-    - intros [= <- <-]. split; [eapply Q_trans; [exact Q0|exact Q1]|]. split; [intro Xd; discriminate Xd|]. intros e' [= <-]. eapply db_feed_err; eauto.
-    - destruct (upd_Q s1 (fun q => pa_more q m)) as (Q2 & R2 & P2); [kt|].
-      set (s2 := upd_pa H s1 _) in *.
+    destruct (upd_Qw s (fun q => pa_length (pa_tail q []) (dg_remaining req (lenN chunk)))) as (Q0 & _ & P0 & _); [kt|].
+    set (s0 := upd_pa H s _) in *. clearbody s0.
+    assert (E0 : eof_pending (pa s0) = eof_pending (pa s)) by (pafield P0 s; reflexivity).
+    assert (L0 : req = 0 -> plength (pa s0) = 0) by (intro Hz; pafield P0 s; unfold dg_remaining; subst req; cbn in Hz; rewrite Hz; lia).
+    destruct (db_feed H hnew hstep havail s0 (take req chunk)) as [s1 [e|m]] eqn:Ed; destruct (db_feed_Q _ _ _ _ Ed) as ((Q1 & L1 & E1) & N1).
+    - intros [= <- <-]. split; [qt|]. split; [congruence|]. split; [intro X; discriminate X|]. split; [intro X; discriminate X|].
+      split; [intros x X; discriminate X|]. split; [intros e' [= <-]; eapply db_feed_err; eauto|]. intros Hz. split; [discriminate|]. rewrite L1. auto.
+    - destruct (upd_Q s1 (fun q => pa_more q m)) as ((Q2 & L2 & E2) & R2 & P2 & _); [kt|].
+      set (s2 := upd_pa H s1 _) in *. clearbody s2.
       assert (Hm : more (pa s2) = true -> nonempty s2).
-      { rewrite P2. destruct (pa s1); cbn. intros ->. unfold nonempty in *. rewrite R2. auto. }
-      destruct (drain H hnew hstep havail f s2) as [s3 [| |e]] eqn:Edr; destruct (drain_Q _ _ _ _ Edr) as (Q3 & N3' & E3); pose proof (N3' Hm) as N3.
-      + destruct (plength (pa s3) =? 0).
-        * intros Hf. destruct (finish_eof_Q _ _ _ _ Hf) as (Q4 & N4 & E4).
-          split; [eapply Q_trans; [exact Q0|eapply Q_trans; [exact Q1|eapply Q_trans; [exact Q2|eapply Q_trans; [exact Q3|exact Q4]]]]|].
-          split; [intro X; contradiction|exact E4].
-        * intros [= <- <-]. split; [eapply Q_trans; [exact Q0|eapply Q_trans; [exact Q1|eapply Q_trans; [exact Q2|exact Q3]]]|].
-          split; [intro Xd; discriminate Xd|intros e [=]].
-      + intros [= <- <-]. destruct (upd_Q s3 (fun q => pa_tail q (drop req chunk))) as (Q4 & R4 & _); [kt|].
-        split; [eapply Q_trans; [exact Q0|eapply Q_trans; [exact Q1|eapply Q_trans; [exact Q2|eapply Q_trans; [exact Q3|exact Q4]]]]|].
-        split; [|intros e [=]]. intros _. unfold nonempty in *. rewrite R4. auto.
-      + intros [= <- <-]. split; [eapply Q_trans; [exact Q0|eapply Q_trans; [exact Q1|eapply Q_trans; [exact Q2|exact Q3]]]|].
-        split; [intro Xd; discriminate Xd|]. intros e' [= <-]. apply E3; reflexivity.
+      { pafield P2 s1. intros ->. unfold nonempty in *. rewrite R2. auto. }
+      destruct (drain H hnew hstep havail f s2) as [s3 [| |e]] eqn:Edr; destruct (drain_Q _ _ _ _ Edr) as ((Q3 & L3 & E3) & N3' & D3 & O3 & F3); pose proof (N3' Hm) as N3.
+      + destruct (plength (pa s3) =? 0) eqn:Ez.
+        * intros Hf. destruct (finish_eof_Q _ _ _ _ Hf) as ((Q4 & L4 & E4) & NP & NN & C4 & F4).
+          split; [qt|]. split; [congruence|]. split; [intro X; contradiction|]. split; [intro X; contradiction|]. split; [exact C4|]. split; [exact F4|].
+          intros Hz. split; [exact NN|]. rewrite L4, L3, L2, L1. auto.
+        * intros [= <- <-]. destruct (upd_Q s3 (fun q => pa_paused q false)) as ((Q4 & L4 & E4) & R4 & P4 & _); [kt|].
+          split; [qt|]. split; [congruence|]. split; [intro X; discriminate X|].
+          split; [intros _; specialize (O3 eq_refl); pafield P4 s3; auto|]. split; [intros x X; discriminate X|]. split; [intros e X; discriminate X|].
+          intros Hz. exfalso. apply N.eqb_neq in Ez. apply Ez. rewrite L3, L2, L1. auto.
+      + intros [= <- <-]. destruct (upd_Q s3 (fun q => pa_tail q (drop req chunk))) as ((Q4 & L4 & E4) & R4 & P4 & _); [kt|].
+        destruct (D3 eq_refl) as (D31 & D32).
+        split; [qt|]. split; [congruence|].
+        split; [intros _; split; [unfold nonempty in *; rewrite R4; auto|pafield P4 s3; auto]|].
+        split; [intro X; discriminate X|]. split; [intros x X; discriminate X|]. split; [intros e X; discriminate X|].
+        intros Hz. split; [discriminate|]. rewrite L4, L3, L2, L1. auto.
+      + intros [= <- <-]. split; [qt|]. split; [congruence|]. split; [intro X; discriminate X|]. split; [intro X; discriminate X|].
+        split; [intros x X; discriminate X|]. split; [intros e' [= <-]; apply F3; reflexivity|].
+        intros Hz. split; [discriminate|]. rewrite L3, L2, L1. auto.
   Qed.
 
+  (* ---- PARSE_UNTIL_EOF -------------------------------------------------------------------------------- *)
   Lemma eof_feed_Q f s c s' r :
-    eof_feed H hnew hstep havail heof hflush f s c = (s', r) -> Q s s' /\ (r = PPending -> nonempty s') /\ nf r.
+    eof_feed H hnew hstep havail heof hflush f s c = (s', r) ->
+    Qw s s' /\
+    (r = PPending -> nonempty s' /\ ppaused (pa s') = false /\ more (pa s') = true /\ eof_pending (pa s') = eof_pending (pa s)) /\
+    (r = PNeeds -> ppaused (pa s') = false /\ more (pa s') = false) /\
+    (forall x, r = PComplete x -> reof (re s') = true) /\ nf r /\
+    (eof_pending (pa s) = true -> r <> PNeeds).
   Proof.
     unfold eof_feed.
-    destruct (db_feed H hnew hstep havail s c) as [s1 [e|m]] eqn:Ed; destruct (db_feed_Q _ _ _ _ Ed) as (Q1 & N1).
-    - intros [= <- <-]. split; [exact Q1|]. split; [intro Xd; discriminate Xd|]. intros e' [= <-]. eapply db_feed_err; eauto.
-    - destruct (upd_Q s1 (fun q => pa_more q m)) as (Q2 & R2 & P2); [kt|].
-      set (s2 := upd_pa H s1 _) in *.
+    destruct (db_feed H hnew hstep havail s c) as [s1 [e|m]] eqn:Ed; destruct (db_feed_Q _ _ _ _ Ed) as ((Q1 & L1 & E1) & N1).
+    - intros [= <- <-]. split; [qt|]. split; [intro X; discriminate X|]. split; [intro X; discriminate X|].
+      split; [intros x X; discriminate X|]. split; [intros e' [= <-]; eapply db_feed_err; eauto|]. intros _; discriminate.
+    - destruct (upd_Q s1 (fun q => pa_more q m)) as ((Q2 & L2 & E2) & R2 & P2 & _); [kt|].
+      set (s2 := upd_pa H s1 _) in *. clearbody s2.
       assert (Hm : more (pa s2) = true -> nonempty s2).
-      { rewrite P2. destruct (pa s1); cbn. intros ->. unfold nonempty in *. rewrite R2. auto. }
-      destruct (drain H hnew hstep havail f s2) as [s3 [| |e]] eqn:Edr; destruct (drain_Q _ _ _ _ Edr) as (Q3 & N3' & E3); pose proof (N3' Hm) as N3.
-      + destruct (eof_pending (pa s3)).
-        * destruct (db_feed_eof H heof hflush s3) as [s4 [e|]] eqn:Ede; destruct (db_feed_eof_Q _ _ _ Ede) as (Q4 & E4); intros [= <- <-].
-          -- split; [eapply Q_trans; [exact Q1|eapply Q_trans; [exact Q2|eapply Q_trans; [exact Q3|exact Q4]]]|].
-             split; [intro Xd; discriminate Xd|]. intros e' [= <-]. apply E4; reflexivity.
-          -- destruct (upd_Q s4 (fun q => pa_eofp (pa_done q true) false)) as (Q5 & _ & _); [kt|].
-             split; [eapply Q_trans; [exact Q1|eapply Q_trans; [exact Q2|eapply Q_trans; [exact Q3|eapply Q_trans; [exact Q4|exact Q5]]]]|].
-             split; [intro Xd; discriminate Xd|intros e [=]].
-        * intros [= <- <-]. split; [eapply Q_trans; [exact Q1|eapply Q_trans; [exact Q2|exact Q3]]|]. split; [intro Xd; discriminate Xd|intros e [=]].
-      + intros [= <- <-]. split; [eapply Q_trans; [exact Q1|eapply Q_trans; [exact Q2|exact Q3]]|]. split; [auto|intros e [=]].
-      + intros [= <- <-]. split; [eapply Q_trans; [exact Q1|eapply Q_trans; [exact Q2|exact Q3]]|].
-        split; [intro Xd; discriminate Xd|]. intros e' [= <-]. apply E3; reflexivity.
+      { pafield P2 s1. intros ->. unfold nonempty in *. rewrite R2. auto. }
+      destruct (drain H hnew hstep havail f s2) as [s3 [| |e]] eqn:Edr; destruct (drain_Q _ _ _ _ Edr) as ((Q3 & L3 & E3) & N3' & D3 & O3 & F3); pose proof (N3' Hm) as N3.
+      + destruct (eof_pending (pa s3)) eqn:Ep.
+        * destruct (db_feed_eof H heof hflush s3) as [s4 [e|]] eqn:Ede; destruct (db_feed_eof_Q _ _ _ Ede) as ((Q4 & L4 & E4) & R4 & F4); intros [= <- <-].
+          -- split; [qt|]. split; [intro X; discriminate X|]. split; [intro X; discriminate X|].
+             split; [intros x X; discriminate X|]. split; [intros e' [= <-]; apply F4; reflexivity|]. intros _; discriminate.
+          -- destruct (upd_Qw s4 (fun q => pa_eofp (pa_done q true) false)) as (Q5 & R5 & _); [kt|].
+             split; [qt|]. split; [intro X; discriminate X|]. split; [intro X; discriminate X|].
+             split; [intros x _; rewrite R5; auto|]. split; [intros e X; discriminate X|]. intros _; discriminate.
+        * intros [= <- <-]. destruct (upd_Q s3 (fun q => pa_paused q false)) as ((Q4 & L4 & E4) & R4 & P4 & _); [kt|].
+          split; [qt|]. split; [intro X; discriminate X|].
+          split; [intros _; specialize (O3 eq_refl); pafield P4 s3; auto|]. split; [intros x X; discriminate X|]. split; [intros e X; discriminate X|].
+          intros Hp. exfalso. rewrite E3, E2, E1 in Ep. congruence.
+      + intros [= <- <-]. destruct (D3 eq_refl) as (D31 & D32).
+        split; [qt|]. split; [intros _; repeat split; auto; congruence|]. split; [intro X; discriminate X|].
+        split; [intros x X; discriminate X|]. split; [intros e X; discriminate X|]. intros _; discriminate.
+      + intros [= <- <-]. split; [qt|]. split; [intro X; discriminate X|]. split; [intro X; discriminate X|].
+        split; [intros x X; discriminate X|]. split; [intros e' [= <-]; apply F3; reflexivity|]. intros _; discriminate.
   Qed.
 
+  (* ---- PARSE_CHUNKED ---------------------------------------------------------------------------------- *)
+  Lemma Qw_upd s f : keepsW f -> Qw s (upd_pa H s f).
+  Proof. intros Hk. destruct (upd_Qw s f Hk) as (X & _); exact X. Qed.
+  Lemma Qw_begin s : Qw s (rd_begin_chunk H s).
+  Proof. destruct (begin_Q s) as ((X & _) & _); exact X. Qed.
+  Lemma Qw_end s : Qw s (rd_end_chunk H s).
+  Proof. destruct (end_Q s) as ((X & _) & _); exact X. Qed.
+  Ltac solveQ :=
+    first [ apply Qw_refl
+          | (eapply Qw_trans; [|apply Qw_begin]); solveQ
+          | (eapply Qw_trans; [|apply Qw_end]); solveQ
+          | (eapply Qw_trans; [|apply Qw_upd; kt]); solveQ ].
+
+  Definition rq (s1 : st) (x : pres) : Prop :=
+    (x = PPending -> nonempty s1 /\ ppaused (pa s1) = false) /\ (x = PNeeds -> ppaused (pa s1) = false) /\
+    (forall y, x = PComplete y -> reof (re s1) = true).
+  Definition bq (s : st) (r : bres H) : Prop :=
+    match r with
+    | BNext s1 _ | BCont s1 _ => Qw s s1
+    | BRet s1 x => Qw s s1 /\ rq s1 x
+    end.
+  Lemma rq_raise s1 e : rq s1 (PRaise e).
+  Proof. unfold rq. repeat split; intros; discriminate. Qed.
+  Lemma rq_needs s1 f : (forall q, ppaused (f q) = false) -> rq (upd_pa H s1 f) PNeeds.
+  Proof.
+    intros Hf. unfold rq. split; [intro X; discriminate X|]. split; [|intros y X; discriminate X].
+    intros _. destruct s1 as [cg p q d rr fd]; cbn. apply Hf.
+  Qed.
+  Ltac pz := let q := fresh "q" in (intro q; destruct q; reflexivity).
+  Ltac walkq :=
+    repeat match goal with
+           | |- bq _ (match ?x with _ => _ end) => destruct x eqn:?
+           | |- bq _ (if ?x then _ else _) => destruct x eqn:?
+           | |- bq _ (let _ := _ in _) => cbv zeta
+           end; cbn [bq].
+  Ltac leafq := first [ solveQ | (split; [solveQ|first [apply rq_raise | apply rq_needs; pz]]) ].
+
+  Lemma blk_size_Q s chunk : bq s (blk_size H s chunk).
+  Proof. unfold blk_size. walkq; leafq. Qed.
+
+  Lemma blk_eof_Q s chunk : bq s (blk_eof H s chunk).
+  Proof. unfold blk_eof. walkq; leafq. Qed.
+
+  Lemma blk_trailers_Q s chunk : bq s (blk_trailers H heof hflush s chunk).
+  Proof.
+    unfold blk_trailers.
+    repeat match goal with
+           | |- bq _ (match finish_eof _ _ _ _ _ with _ => _ end) => fail 1
+           | |- bq _ (match ?x with _ => _ end) => destruct x eqn:?
+           | |- bq _ (if ?x then _ else _) => destruct x eqn:?
+           | |- bq _ (let _ := _ in _) => cbv zeta
+           end; cbn [bq]; try leafq.
+    match goal with |- bq _ (match finish_eof _ _ _ ?t ?c with _ => _ end) => destruct (finish_eof H heof hflush t c) as [s2 r2] eqn:Ef; set (t0 := t) in * end.
+    cbn [bq]. destruct (finish_eof_Q _ _ _ _ Ef) as ((Q4 & _) & NP & NN & C4 & F4).
+    assert (Qt : Qw s t0) by (subst t0; solveQ).
+    split; [eapply Qw_trans; eauto|]. unfold rq. split; [intro X; contradiction|]. split; [intro X; contradiction|exact C4].
+  Qed.
+
+  Lemma blk_chunk_Q s chunk : Pq s -> bq s (blk_chunk H hnew hstep havail s chunk).
+  Proof.
+    intros Hq. unfold blk_chunk. destruct (cst (pa s)); cbn [bq]; try solveQ.
+    destruct (ppaused (pa s)) eqn:Ep; cbn [bq].
+    - destruct (upd_Qw s (fun q => pa_tail (pa_paused q false) chunk)) as (Q1 & R1 & P1 & _); [kt|].
+      split; [exact Q1|]. unfold rq. split; [|split; [intro X; discriminate X|intros y X; discriminate X]].
+      intros _. split; [unfold nonempty, Pq in *; rewrite R1; auto|]. rewrite P1. destruct (pa s); reflexivity.
+    - cbv zeta.
+      destruct (upd_Qw s (fun q => pa_csize q (dg_remaining (csize (pa s)) (lenN chunk)))) as (Q0 & _); [kt|].
+      set (s0 := upd_pa H s _) in *. clearbody s0.
+      destruct (db_feed H hnew hstep havail s0 (take (csize (pa s)) chunk)) as [s1 [e|m]] eqn:Ed; destruct (db_feed_Q _ _ _ _ Ed) as ((Q1 & _) & _); cbn [bq].
+      + split; [qt|apply rq_raise].
+      + assert (Q01 : Qw s s1) by qt.
+        destruct m; [|destruct (negb (csize (pa (upd_pa H s1 (fun q => pa_more q false))) =? 0))]; cbn [bq].
+        * eapply Qw_trans; [exact Q01|solveQ].
+        * split; [eapply Qw_trans; [exact Q01|solveQ]|apply rq_needs; pz].
+        * eapply Qw_trans; [exact Q01|solveQ].
+  Qed.
+
+  Definition presq (s s' : st) (r : pres) : Prop := Qw s s' /\ rq s' r.
+
+  Lemma chunk_loop_Q f : forall s chunk s' r,
+    W s -> Pq s -> chunk_loop H hnew hstep havail heof hflush f s chunk = (s', r) -> presq s s' r.
+  Proof.
+    induction f as [|f IH]; intros s chunk s' r Hw Hq; cbn [chunk_loop].
+    - intros [= <- <-]. split; [apply Qw_refl|apply rq_raise].
+    - destruct (isnil chunk && negb (more (pa s))).
+      { intros [= <- <-]. split; [solveQ|apply rq_needs; pz]. }
+      assert (next : forall t c, Qw s t -> chunk_loop H hnew hstep havail heof hflush f t c = (s', r) -> presq s s' r).
+      { intros t c Qt Hl. pose proof Qt as (T1 & _ & _ & T4 & _). apply IH in Hl; auto. destruct Hl as (Q' & R'). split; [eapply Qw_trans; eauto|exact R']. }
+      pose proof (blk_size_Q s chunk) as S1.
+      destruct (blk_size H s chunk) as [s1 c1|s1 c1|s1 r1]; cbn [bq] in S1.
+      2: { eauto. }
+      2: { destruct S1 as (Q1 & R1). intros [= <- <-]. split; auto. }
+      pose proof S1 as (T1 & _ & _ & T4 & _).
+      pose proof (blk_chunk_Q s1 c1 (T4 Hw Hq)) as S2.
+      destruct (blk_chunk H hnew hstep havail s1 c1) as [s2 c2|s2 c2|s2 r2]; cbn [bq] in S2.
+      2: { apply next. eapply Qw_trans; eauto. }
+      2: { destruct S2 as (Q2 & R2). intros [= <- <-]. split; [eapply Qw_trans; eauto|exact R2]. }
+      pose proof (blk_eof_Q s2 c2) as S3.
+      destruct (blk_eof H s2 c2) as [s3 c3|s3 c3|s3 r3]; cbn [bq] in S3.
+      2: { apply next. eapply Qw_trans; [exact S1|eapply Qw_trans; eauto]. }
+      2: { destruct S3 as (Q3 & R3). intros [= <- <-]. split; [eapply Qw_trans; [exact S1|eapply Qw_trans; eauto]|exact R3]. }
+      pose proof (blk_trailers_Q s3 c3) as S4.
+      destruct (blk_trailers H heof hflush s3 c3) as [s4 c4|s4 c4|s4 r4]; cbn [bq] in S4.
+      + apply next. eapply Qw_trans; [exact S1|eapply Qw_trans; [exact S2|eapply Qw_trans; eauto]].
+      + apply next. eapply Qw_trans; [exact S1|eapply Qw_trans; [exact S2|eapply Qw_trans; eauto]].
+      + destruct S4 as (Q4 & R4). intros [= <- <-]. split; [eapply Qw_trans; [exact S1|eapply Qw_trans; [exact S2|eapply Qw_trans; eauto]]|exact R4].
+  Qed.
+
+  Lemma chunked_feed_Q f s c s' r :
+    W s -> Pq s -> chunked_feed H hnew hstep havail heof hflush f s c = (s', r) -> presq s s' r.
+  Proof.
+    intros Hw Hq. unfold chunked_feed.
+    match goal with |- (if ?x then _ else _) = _ -> _ => destruct x end.
+    - intros [= <- <-]. split; [apply Qw_refl|apply rq_raise].
+    - destruct (upd_Qw s (fun q => pa_tail q [])) as (Q0 & _); [kt|].
+      pose proof Q0 as (T1 & _ & _ & T4 & _).
+      intros Hl. destruct (chunk_loop_Q _ _ _ _ _ (T1 Hw) (T4 Hw Hq) Hl) as (Q1 & R1). split; [eapply Qw_trans; eauto|exact R1].
+  Qed.
+
+  (* HttpPayloadParser.feed_data, any framing *)
   Lemma payload_feed_Q f s c s' r :
-    ptyp (pa s) <> PChunked -> payload_feed H hnew hstep havail heof hflush f s c = (s', r) ->
-    Q s s' /\ (r = PPending -> nonempty s') /\ nf r.
+    W s -> ppaused (pa s) = false -> payload_feed H hnew hstep havail heof hflush f s c = (s', r) -> presq s s' r.
   Proof.
-    intros Ht. unfold payload_feed. destruct (ptyp (pa s)); [apply len_feed_Q|contradiction|apply eof_feed_Q].
-  Qed.
-
-  Lemma payload_feed_eof_Q f s s' r :
-    ptyp (pa s) <> PChunked -> payload_feed_eof H hnew hstep havail heof hflush f s = (s', r) -> Q s s'.
-  Proof.
-    intros Ht. unfold payload_feed_eof. destruct (ptyp (pa s)); [|contradiction|].
-    - destruct (negb (plength (pa s) =? 0)); [intros [= <- <-]; apply Q_refl|].
-      destruct (drain H hnew hstep havail f s) as [s1 [| |e]] eqn:Edr; destruct (drain_Q _ _ _ _ Edr) as (Q1 & _ & _).
-      + destruct (db_feed_eof H heof hflush s1) as [s2 [e|]] eqn:Ede; destruct (db_feed_eof_Q _ _ _ Ede) as (Q2 & _); intros [= <- <-].
-        * eapply Q_trans; [exact Q1|exact Q2].
-        * destruct (upd_Q s2 (fun q => pa_done q true)) as (Q3 & _ & _); [kt|]. eapply Q_trans; [exact Q1|eapply Q_trans; [exact Q2|exact Q3]].
-      + intros [= <- <-]. exact Q1.
-      + intros [= <- <-]. exact Q1.
-    - destruct (upd_Q s (fun q => pa_eofp q true)) as (Q0 & _ & _); [kt|].
-      destruct (drain H hnew hstep havail f (upd_pa H s (fun q => pa_eofp q true))) as [s1 [| |e]] eqn:Edr; destruct (drain_Q _ _ _ _ Edr) as (Q1 & _ & _).
-      + destruct (db_feed_eof H heof hflush s1) as [s2 [e|]] eqn:Ede; destruct (db_feed_eof_Q _ _ _ Ede) as (Q2 & _); intros [= <- <-].
-        * eapply Q_trans; [exact Q0|eapply Q_trans; [exact Q1|exact Q2]].
-        * destruct (upd_Q s2 (fun q => pa_eofp (pa_done q true) false)) as (Q3 & _ & _); [kt|].
-          eapply Q_trans; [exact Q0|eapply Q_trans; [exact Q1|eapply Q_trans; [exact Q2|exact Q3]]].
-      + intros [= <- <-]. eapply Q_trans; [exact Q0|exact Q1].
-      + intros [= <- <-]. eapply Q_trans; [exact Q0|exact Q1].
-  Qed.
-
-  (* ---- between stimuli ---------------------------------------------------------------------------------- *)
-  Definition PIb (s : st) : Prop :=
-    Ps s /\ SzP s /\ 1 <= low (re s) /\ ptyp (pa s) <> PChunked /\
-    (has_more (pr s) = true -> parser_alive (pr s) = true -> pp_present (pr s) = true) /\
-    parser_alive (pr s) = connected (pr s) /\ closing (pr s) = false.
-  Definition PI (s : st) : Prop :=
-    PIb s /\ Pg s /\ (has_more (pr s) = true -> parser_alive (pr s) = true -> nonempty s).
-
-  Definition pr_same (f : prot -> prot) : Prop :=
-    forall p, connected (f p) = connected p /\ tpaused (f p) = tpaused p /\ rpaused (f p) = rpaused p /\
-              parser_alive (f p) = parser_alive p /\ closing (f p) = closing p.
-  Lemma pr_upd s f : pr_same f ->
-    let s' := pr_set H s f in
-    (Pg s -> Pg s') /\ (Pt s -> Pt s') /\ (Ps s -> Ps s') /\ (SzP s -> SzP s') /\ re s' = re s /\ pa s' = pa s /\ cf s' = cf s /\ pr s' = f (pr s).
-  Proof.
-    intros Hk. bust s. unq. unfold pr_set. cbn.
-    destruct (Hk (mkProt co tp rp al ppr hm cl)) as (K1 & K2 & K3 & K4 & K5). cbn in *. rewrite K1, K2, K3. crush.
-  Qed.
-  Ltac prs := unfold pr_same; let p := fresh "p" in (intro p; destruct p; cbn; auto).
-
-  Lemma parser_feed_P f s data :
-    PIb s -> Pg s ->
-    let s' := parser_feed H hnew hstep havail heof hflush f s data in PI s' /\ (Pt s -> Pt s').
-  Proof.
-    intros Hb Hg. unfold parser_feed. cbv zeta.
-    pose proof Hb as (B1 & B2 & B3 & B4 & B5 & B6 & B7).
-    destruct (negb (parser_alive (pr s))) eqn:Ea.
-    { split; [|auto]. split; [exact Hb|]. split; [exact Hg|]. intros _ X. apply negb_true_iff in Ea. congruence. }
-    destruct (isnil data && negb (has_more (pr s))) eqn:En.
-    { split; [|auto]. split; [exact Hb|]. split; [exact Hg|]. intros X _. apply andb_true_iff in En as [_ En]. apply negb_true_iff in En. congruence. }
-    destruct (negb (pp_present (pr s))) eqn:Ep.
-    { split; [|auto]. split; [exact Hb|]. split; [exact Hg|]. intros X Y. specialize (B5 X Y). apply negb_true_iff in Ep. congruence. }
-    apply negb_false_iff in Ea. apply negb_false_iff in Ep.
-    destruct (payload_feed H hnew hstep havail heof hflush f s data) as [s1 r] eqn:Ef.
-    destruct (payload_feed_Q _ _ _ _ _ B4 Ef) as (Q1 & N1 & F1).
-    destruct Q1 as (G1 & T1 & S1 & Z1 & M1 & C1 & L1 & Y1 & Co1 & Al1 & Pp1 & Hm1 & Cl1).
-    destruct r as [| |rest|e].
-    - match goal with |- context [pr_set H s1 ?g] => destruct (pr_upd s1 g) as (U1 & U2 & U3 & U4 & U5 & U6 & U7 & U8); [prs|] end. cbv zeta in *.
-      unfold PI, PIb. unq. rewrite ?U5, ?U6, ?U8 in *. cbn in *. rewrite ?L1, ?Y1, ?Co1, ?Al1, ?Cl1, ?Pp1 in *. crush.
-    - match goal with |- context [pr_set H s1 ?g] => destruct (pr_upd s1 g) as (U1 & U2 & U3 & U4 & U5 & U6 & U7 & U8); [prs|] end. cbv zeta in *.
-      specialize (N1 eq_refl). unfold PI, PIb. unq. rewrite ?U5, ?U6, ?U8 in *. cbn in *. rewrite ?L1, ?Y1, ?Co1, ?Al1, ?Cl1, ?Pp1 in *. crush.
-    - match goal with |- context [pr_set H s1 ?g] => destruct (pr_upd s1 g) as (U1 & U2 & U3 & U4 & U5 & U6 & U7 & U8); [prs|] end. cbv zeta in *.
-      unfold PI, PIb. unq. rewrite ?U5, ?U6, ?U8 in *. cbn in *. rewrite ?L1, ?Y1, ?Co1, ?Al1, ?Cl1 in *. crush.
-    - rewrite (F1 e eq_refl). destruct (exn_Q s1 e) as (Q2 & P2).
-      destruct Q2 as (G2 & T2 & S2 & Z2 & M2 & C2 & L2 & Y2 & Co2 & Al2 & Pp2 & Hm2 & Cl2).
-      match goal with |- context [pr_set H ?t ?g] => destruct (pr_upd t g) as (U1 & U2 & U3 & U4 & U5 & U6 & U7 & U8); [prs|] end. cbv zeta in *.
-      unfold PI, PIb. unq. rewrite ?U5, ?U6, ?U8 in *. cbn in *. rewrite ?P2 in *. rewrite ?L2, ?Y2, ?Co2, ?Al2, ?Cl2 in *. rewrite ?L1, ?Y1, ?Co1, ?Al1, ?Cl1 in *. crush.
-  Qed.
-
-  Lemma connection_lost_P f s :
-    PIb s -> let s' := connection_lost H hnew hstep havail heof hflush f s in PI s' /\ Pt s'.
-  Proof.
-    intros Hb. unfold connection_lost. cbv zeta.
-    match goal with |- context [pr_set H ?t _] => remember t as s1 eqn:Es1 end.
-    assert (H1 : Ps s1 /\ SzP s1 /\ low (re s1) = low (re s) /\ ptyp (pa s1) = ptyp (pa s)).
-    { destruct Hb as (B1 & B2 & B3 & B4 & B5 & B6 & B7). subst s1.
-      destruct (parser_alive (pr s) && pp_present (pr s)); [|auto].
-      destruct (payload_feed_eof H hnew hstep havail heof hflush f s) as [s2 [e|]] eqn:Ef;
-        pose proof (payload_feed_eof_Q _ _ _ _ B4 Ef) as (G1 & T1 & S1 & Z1 & M1 & C1 & L1 & Y1 & _).
-      - destruct (exn_Q s2 e) as ((G2 & T2 & S2 & Z2 & M2 & C2 & L2 & Y2 & _) & _). repeat split; auto; congruence.
-      - destruct (pdone (pa s2)); [|repeat split; auto].
-        match goal with |- context [pr_set H s2 ?g] => destruct (pr_upd s2 g) as (U1 & U2 & U3 & U4 & U5 & U6 & U7 & U8); [prs|] end. cbv zeta in *.
-        unq. rewrite U5, U6. repeat split; auto. }
-    clear Es1. destruct Hb as (B1 & B2 & B3 & B4 & B5 & B6 & B7). destruct H1 as (S1 & Z1 & L1 & Y1).
-    clear - S1 Z1 L1 Y1 B3 B4. bust s1. unfold PI, PIb. unq. unfold pr_set. cbn in *. rewrite L1, Y1. crush.
-  Qed.
-
-  Lemma resume_P f s :
-    PIb s -> let s' := resume_reading H hnew hstep havail heof hflush f s in PI s' /\ Pt s'.
-  Proof.
-    intros Hb. unfold resume_reading. cbv zeta.
-    match goal with |- context [parser_feed H hnew hstep havail heof hflush f ?t []] => set (s1 := t) end.
-    assert (H1 : PIb s1 /\ Pg s1).
-    { subst s1. clear - Hb. bust s. unfold PIb in *. unq. unfold pr_set. cbn in *. crush. }
-    destruct H1 as (Hb1 & Hg1).
-    destruct (parser_feed_P f s1 [] Hb1 Hg1) as (I2 & _). cbv zeta in *.
-    set (s2 := parser_feed H hnew hstep havail heof hflush f s1 []) in *. clearbody s2. clear - I2.
-    destruct (negb (rpaused (pr s2)) && connected (pr s2)) eqn:Er.
-    - apply andb_true_iff in Er as [Er1 Er2]. apply negb_true_iff in Er1.
-      bust s2. unfold PI, PIb in *. unq. unfold pr_set. cbn in *. subst. crush.
-    - split; [exact I2|]. unfold Pt. intros Hc Ht. rewrite Hc in Er. rewrite andb_true_r in Er. apply negb_false_iff in Er. exact Er.
-  Qed.
-
-  Lemma rd_take_P f s n s' d :
-    PI s -> Pt s -> rd_take H hnew hstep havail heof hflush f s n = (s', d) -> PI s' /\ Pt s'.
-  Proof.
-    intros Hi Ht. unfold rd_take. destruct (buf (re s)) as [|blk0 rest] eqn:Eb; [intros [= <- <-]; auto|].
-    match goal with |- (let '(data, buf') := ?x in _) = _ -> _ => destruct x as [data buf'] eqn:Ex end.
-    assert (Hlen : lenN data + lenN (concat buf') = lenN (concat (blk0 :: rest))).
-    { cbn [concat]. rewrite lenN_app. destruct n as [k|].
-      - destruct (k <? lenN blk0) eqn:Ek; inversion Ex; subst; cbn [concat]; rewrite ?lenN_app; [pose proof (take_drop_len k blk0); lia|lia].
-      - inversion Ex; subst. lia. }
-    cbv zeta.
-    match goal with |- context [set_re H s ?r] => set (r1 := r) end.
-    set (s1 := set_re H s r1).
-    assert (Hs : rsize (re s) = lenN data + lenN (concat buf')).
-    { destruct Hi as ((_ & I2 & _) & _). unfold SzP in I2. rewrite Eb in I2. lia. }
-    assert (I1 : PIb s1 /\ Pt s1 /\ (buf' <> [] -> PI s1) /\ rsize (re s1) = lenN (concat buf') /\ low (re s1) = low (re s) /\ splits (re s1) = None /\ buf (re s1) = buf').
-    { subst s1 r1. clear - Hi Ht Hs. bust s. unfold PI, PIb in *. unq. unfold set_re. cbn in *.
-      destruct Hi as ((I1 & I2 & I3 & I4 & I5 & I6 & I7) & I8 & I9). subst sp. cbn. crush. }
-    destruct I1 as (Hb1 & Ht1 & Hfull & Hsz & Hlow & Hsp & Hbuf).
-    match goal with |- ((if ?x then _ else _), _) = _ -> _ => destruct x eqn:Ec end; intros [= <- <-].
-    - apply resume_P; exact Hb1.
-    - split; [|exact Ht1]. apply Hfull. intro Hn.
-      (* an empty buffer always satisfies the resume test: rsize = 0 < 1 <= low and there are no chunk splits *)
-      destruct Hi as ((P1 & _ & I3 & _) & _). unfold Ps in P1.
-      rewrite Hn in Hs. cbn in Hs. clear - Ec P1 I3 Hs.
-      subst r1. destruct s as [cg p q d rr fd]. destruct rr. cbn in *. subst. cbn in Ec.
-      unfold dg_resume_size in Ec. rewrite N.add_0_r, N.sub_diag in Ec.
-      destruct (0 <? low) eqn:E0; [cbn in Ec; discriminate|lia].
-  Qed.
-
-  Lemma take_k_P f k : forall s acc s' d, PI s -> Pt s -> take_k H hnew hstep havail heof hflush f k s acc = (s', d) -> PI s' /\ Pt s'.
-  Proof.
-    induction k as [|k IH]; intros s acc s' d Hi Ht; cbn [take_k]; [intros [= <- <-]; auto|].
-    destruct (rd_take H hnew hstep havail heof hflush f s None) as [s1 d1] eqn:Et. intros Hk.
-    destruct (rd_take_P _ _ _ _ _ Hi Ht Et) as (I1 & T1). eapply IH; eauto.
-  Qed.
-
-  Lemma read_upto_P f g : forall s n acc s' d, PI s -> Pt s -> read_upto H hnew hstep havail heof hflush f g s n acc = (s', d) -> PI s' /\ Pt s'.
-  Proof.
-    induction g as [|g IH]; intros s n acc s' d Hi Ht; cbn [read_upto]; [intros [= <- <-]; auto|].
-    destruct (isnil (buf (re s))); [intros [= <- <-]; auto|].
-    destruct (rd_take H hnew hstep havail heof hflush f s (Some n)) as [s1 d1] eqn:Et.
-    destruct (rd_take_P _ _ _ _ _ Hi Ht Et) as (I1 & T1).
-    destruct (n - lenN d1 =? 0); [intros [= <- <-]; auto|]. intros Hk. eapply IH; eauto.
-  Qed.
-
-  Lemma set_chunk_P s n : PI s -> Pt s -> PI (set_chunk_size H s n) /\ Pt (set_chunk_size H s n).
-  Proof.
-    intros Hi Ht. unfold set_chunk_size. destruct (dg_raises n (low (re s))) eqn:Er; [|auto].
-    unfold dg_raises, dg_raise_low in *. bust s. unfold PI, PIb in *. unq. unfold set_re. cbn in *. crush.
-  Qed.
-
-  Lemma set_wt_P s w0 : PI s -> Pt s -> PI (set_wt H s w0) /\ Pt (set_wt H s w0).
-  Proof. intros Hi Ht. bust s. unfold PI, PIb in *. unq. unfold set_wt, set_re. cbn in *. auto. Qed.
-
-  Lemma op_body_P f s o s' r : PI s -> Pt s -> op_body H hnew hstep havail heof hflush f s o = (s', r) -> PI s' /\ Pt s'.
-  Proof.
-    intros Hi Ht. unfold op_body. cbv zeta.
-    destruct (isnil (buf (re s)) && negb (reof (re s))).
-    - destruct (connected (pr s)); intros [= <- <-]; apply set_wt_P; auto.
-    - destruct (set_wt_P s WNone Hi Ht) as (I1 & T1). destruct o as [|n|n].
-      + destruct (take_k H hnew hstep havail heof hflush f (length (buf (re s))) (set_wt H s WNone) []) as [s1 d] eqn:Et.
-        intros [= <- <-]. eapply take_k_P; eauto.
-      + destruct (read_upto H hnew hstep havail heof hflush f f (set_wt H s WNone) n []) as [s1 [d|]] eqn:Et;
-          intros [= <- <-]; eapply read_upto_P; eauto.
-      + intros [= <- <-]. auto.
-  Qed.
-
-  Lemma op_start_P f s o s' r : PI s -> Pt s -> op_start H hnew hstep havail heof hflush f s o = (s', r) -> PI s' /\ Pt s'.
-  Proof.
-    intros Hi Ht. unfold op_start. destruct o as [|n|n].
-    - destruct (rexn (re s)); [intros [= <- <-]; auto|]. apply op_body_P; auto.
-    - destruct (rexn (re s)); [intros [= <- <-]; auto|]. destruct (n =? 0); [intros [= <- <-]; auto|].
-      destruct (set_chunk_P s n Hi Ht) as (I1 & T1). apply op_body_P; auto.
-    - intros [= <- <-]. apply set_chunk_P; auto.
-  Qed.
-
-  Lemma op_wake_P f s o s' r : PI s -> Pt s -> op_wake H hnew hstep havail heof hflush f s o = (s', r) -> PI s' /\ Pt s'.
-  Proof.
-    intros Hi Ht. unfold op_wake. destruct (wt (re s)).
-    - intros [= <- <-]; auto.
-    - intros [= <- <-]; auto.
-    - destruct (op_body H hnew hstep havail heof hflush f s o) as [s1 r1] eqn:Eo. intros [= <- <-]. eapply op_body_P; eauto.
-    - intros [= <- <-]. apply set_wt_P; auto.
-  Qed.
-
-  Lemma poll_P f (y y' : sys) o : PI (core y) -> Pt (core y) -> poll H hnew hstep havail heof hflush f y = (y', o) -> PI (core y') /\ Pt (core y').
-  Proof.
-    intros Hi Ht. unfold poll. destruct (pend y) as [op0|]; [|intros [= <- <-]; auto].
-    destruct (op_wake H hnew hstep havail heof hflush f (core y) op0) as [s1 [r|]] eqn:Ew;
-      pose proof (op_wake_P _ _ _ _ _ Hi Ht Ew) as I1; [destruct r|]; intros [= <- <-]; exact I1.
-  Qed.
-
-  Lemma settle_P f (y : sys) (o : obs) (y' : sys) (o' : obs) :
-    PI (core y) -> Pt (core y) -> settle H hnew hstep havail heof hflush f (y, o) = (y', o') -> PI (core y') /\ Pt (core y').
-  Proof.
-    intros Hi Ht. unfold settle. destruct Hi as (Hb & Hg & Hh). pose proof Hb as (_ & _ & _ & _ & _ & _ & Cl). rewrite Cl.
-    intros [= <- <-]. split; [split; auto|auto].
-  Qed.
-
-  Lemma step_P f (y y' : sys) ev o : PI (core y) -> Pt (core y) -> step H hnew hstep havail heof hflush f y ev = (y', o) -> PI (core y') /\ Pt (core y').
-  Proof.
-    intros Hi Ht. unfold step. cbv zeta. destruct ev as [d| |op0].
-    - destruct (deliverable H (core y) && pp_present (pr (core y)) && parser_alive (pr (core y)) && negb (isnil d)); [|intros [= <- <-]; auto].
-      destruct Hi as (Hb & Hg & Hh). destruct (parser_feed_P f (core y) d Hb Hg) as (I1 & T1). cbv zeta in *.
-      intros Hs.
-      destruct (poll H hnew hstep havail heof hflush f (mkSys H (parser_feed H hnew hstep havail heof hflush f (core y) d) (pend y))) as [y1 o1] eqn:Ep.
-      eapply poll_P in Ep; [|exact I1|exact (T1 Ht)]. destruct Ep as (I2 & T2). eapply settle_P in Hs; eauto.
-    - destruct (deliverable H (core y) && pp_present (pr (core y)) && parser_alive (pr (core y))); [|intros [= <- <-]; auto].
-      destruct Hi as (Hb & Hg & Hh). destruct (connection_lost_P f (core y) Hb) as (I1 & T1). cbv zeta in *.
-      intros Hp. eapply poll_P in Hp; eauto.
-    - destruct (pend y); [intros [= <- <-]; auto|].
-      destruct (op_start H hnew hstep havail heof hflush f (core y) op0) as [s1 r] eqn:Eo.
-      destruct (op_start_P _ _ _ _ _ Hi Ht Eo) as (I1 & T1).
-      destruct r as [d| |e].
-      + intros Hs. eapply settle_P in Hs; eauto.
-      + destruct (settle H hnew hstep havail heof hflush f (mkSys H s1 (Some op0), ONone)) as [y1 o1] eqn:Es.
-        eapply settle_P in Es; eauto. destruct o1; intros [= <- <-]; exact Es.
-      + intros Hs. eapply settle_P in Hs; eauto.
-  Qed.
-
-  Lemma run_P f : forall evs (y y' : sys) os, PI (core y) -> Pt (core y) -> run H hnew hstep havail heof hflush f y evs = (y', os) -> PI (core y') /\ Pt (core y').
-  Proof.
-    induction evs as [|ev evs IH]; intros y y' os Hi Ht; cbn [run]; [intros [= <- <-]; auto|].
-    destruct (step H hnew hstep havail heof hflush f y ev) as [y1 o] eqn:Es.
-    destruct (run H hnew hstep havail heof hflush f y1 evs) as [y2 os2] eqn:Er. intros [= <- <-].
-    destruct (step_P _ _ _ _ _ Hi Ht Es) as (I1 & T1). eapply IH; eauto.
-  Qed.
-
-  Lemma init_P c t len enc : 1 <= c_limit c -> t <> PChunked -> PI (core (init H hnew c t len enc)) /\ Pt (core (init H hnew c t len enc)).
-  Proof.
-    intros Hl Ht. unfold init, PI, PIb. unq. cbn. unfold dg_low. repeat split; auto; try discriminate.
-  Qed.
-
-  (* no stalled state for Content-Length and until-EOF bodies *)
-  Theorem progress_nonchunked : forall f c t len enc evs (y : sys) os,
-    1 <= c_limit c -> t <> PChunked ->
-    run H hnew hstep havail heof hflush f (init H hnew c t len enc) evs = (y, os) ->
-    buf (re (core y)) = [] -> connected (pr (core y)) = true ->
-    has_more (pr (core y)) = false /\ rpaused (pr (core y)) = false /\ tpaused (pr (core y)) = false.
-  Proof.
-    intros f c t len enc evs y os Hl Ht Hr He Hc.
-    destruct (init_P c t len enc Hl Ht) as (I0 & T0).
-    destruct (run_P f evs _ _ _ I0 T0 Hr) as (((B1 & B2 & B3 & B4 & B5 & B6 & B7) & Hg & Hh) & Hpt).
-    unfold Pg, Pt, nonempty in *.
-    assert (R : rpaused (pr (core y)) = false). { destruct (rpaused (pr (core y))); [exfalso; apply Hg; auto|reflexivity]. }
-    split; [|split; [exact R|]].
-    - destruct (has_more (pr (core y))); [exfalso; apply Hh; auto; congruence|reflexivity].
-    - destruct (tpaused (pr (core y))); [rewrite Hpt in R; auto; discriminate|reflexivity].
+    intros Hw Hp. unfold payload_feed. destruct (ptyp (pa s)).
+    - intros Hf. destruct (len_feed_Q _ _ _ _ _ Hf) as (Q1 & _ & A & B & C & _). split; [exact Q1|]. unfold rq.
+      split; [intro X; destruct (A X) as (A1 & A2 & _); auto|]. split; [intro X; destruct (B X); auto|exact C].
+    - apply chunked_feed_Q; auto. unfold Pq. congruence.
+    - intros Hf. destruct (eof_feed_Q _ _ _ _ _ Hf) as (Q1 & A & B & C & _). split; [exact Q1|]. unfold rq.
+      split; [intro X; destruct (A X) as (A1 & A2 & _); auto|]. split; [intro X; destruct (B X); auto|exact C].
   Qed.
 End Progress.
